@@ -424,10 +424,15 @@ func runModule(h *Hist, out *bufio.Writer) {
 	var sess *models.Session
 	sid := ""
 	d := &dumper{out: out}
+	inserted := false
 	observe := func() {
 		g := sessionGrid(sess)
 		if g == nil {
-			fmt.Fprintf(out, "X 3\n")
+			// a session in which no plane was sampled yet may not have its grid yet (a module is free to create it with
+			// the first message); a session that lost its grid after a plane was stored is a violation
+			if inserted {
+				fmt.Fprintf(out, "X 3\n")
+			}
 			return
 		}
 		d.attach(g)
@@ -565,6 +570,7 @@ func runModule(h *Hist, out *bufio.Writer) {
 			fmt.Fprintf(out, "I %d %s %s\n", o.P, v3s(o.A), v3s(o.B))
 			_, pan := p.mod(&dagazpb.DagazQuadSample{Type: dagazpb.MsgType_MSG_TYPE_DAGAZ_QUAD_SAMPLE,
 				Samples: []*dagazpb.Quad{{Center: pt(o.A), Extents: pt(o.B)}}})
+			inserted = true
 			if pan {
 				fmt.Fprintf(out, "X 1\n")
 			}
